@@ -836,6 +836,10 @@ func execDraw(line string) (res h.Result) {
 			// C01: display = logical screen
 			for y := 0; y < sh.h; y++ {
 				covered := false
+				// Overlapping wide runes beside a locked cell: which of them "owns" a column is not fixed by the statement
+				// (a wide rune left of a locked cell is shown one column wide, so the locked cell's own wide rune then
+				// covers the next column).  Only cells that are a cell of their own in BOTH readings are judged.
+				ownNarrow := heads(y, true)
 				for x := 0; x < sh.w; x++ {
 					k := [2]int{x, y}
 					c := get(x, y)
@@ -844,6 +848,13 @@ func execDraw(line string) (res h.Result) {
 					if covered {
 						covered = false
 						continue // hidden right half of a wide rune: not a cell of its own on the display
+					}
+					if !ownNarrow[x] {
+						tags["layout-ambiguous-skipped"] = true
+						if wd > 1 && x+wd <= sh.w {
+							covered = true
+						}
+						continue
 					}
 					wide := wd > 1 && x+wd <= sh.w
 					if wide {
